@@ -90,6 +90,14 @@ class DocGen:
             if key in seen or al == 'xmlns': continue
             seen.add(key)
             attrs.append((ap, al, gen_text(rng, 4, 0.1) if rng.random() < 0.9 else ''))
+        # annotation attributes servers do send (xsi:type / xsi:nil, lxml's py:pytype): data like any other attribute
+        for ap, uri, al, val, pr in (('xsi', 'http://www.w3.org/2001/XMLSchema-instance', 'type', 'xs:unsignedLong', 0.07),
+                                    ('xsi', 'http://www.w3.org/2001/XMLSchema-instance', 'nil', 'true', 0.03),
+                                    ('py', 'http://codespeak.net/lxml/objectify/pytype', 'pytype', 'int', 0.04)):
+            if rng.random() < pr and scope.get(ap, uri) == uri and (uri, al) not in seen:
+                if scope.get(ap) != uri:
+                    decls.append((ap, uri)); scope[ap] = uri
+                seen.add((uri, al)); attrs.append((ap, al, val))
         kids, xkids = [], []
         if depth < self.max_depth:
             last_text = False
